@@ -155,7 +155,7 @@ func (c05) Run(c *Ctx, i int) CaseResult {
 	if i%5 == 1 {
 		// the same kind of request through a gateway in its default configuration (the library's network queryers over
 		// an in-process transport), under the race detector like everything here; no request middlewares (KF-D37)
-		tc := NetTwinCase{Query: c05Queries[r.Intn(len(c05Queries))], StoreSeed: 5, ListLen: []int{0, 3, 12, 30}[r.Intn(4)], Cached: r.Intn(2) == 0, Repeat: 1 + r.Intn(3)}
+		tc := NetTwinCase{Query: c05Queries[r.Intn(len(c05Queries))], StoreSeed: 5, ListLen: []int{0, 3, 12, 30}[r.Intn(4)], Cached: r.Intn(2) == 0, Repeat: 1 + r.Intn(3), Introspected: r.Intn(3) == 0}
 		if nf := RunNetTwin(tc); len(nf) > 0 {
 			res.Nontrivial = true
 			res.Fails = nf
